@@ -66,12 +66,16 @@ type accessRec struct {
 }
 
 type shadowCell struct {
-	lastW *accessRec
-	reads map[int]*accessRec
+	lastW accessRec
+	hasW  bool
+	reads []accessRec
 	keep  any
 }
 
 func site(skip int) string {
+	if S == nil || !S.sites {
+		return "(re-run with site capture for locations)"
+	}
 	var pcs [8]uintptr
 	n := runtime.Callers(skip, pcs[:])
 	fr := runtime.CallersFrames(pcs[:n])
@@ -94,7 +98,12 @@ func site(skip int) string {
 	}
 }
 
-func access(addr uintptr, keep any, write bool, what string) {
+const (
+	kindField = iota
+	kindMap
+)
+
+func access(addr uintptr, keep any, write bool, kind int) {
 	if S == nil || S.aborting {
 		return
 	}
@@ -104,33 +113,45 @@ func access(addr uintptr, keep any, write bool, what string) {
 	}
 	cell := S.shadow[addr]
 	if cell == nil {
-		cell = &shadowCell{reads: map[int]*accessRec{}, keep: keep}
+		cell = &shadowCell{keep: keep}
 		S.shadow[addr] = cell
 	}
 	me := t.id
 	clk := t.vc.get(me)
-	report := func(prev *accessRec, kind string) {
+	report := func(prev *accessRec) {
 		if len(S.ex.Races) < 8 {
+			what := fmt.Sprintf("%T", cell.keep)
 			S.ex.Races = append(S.ex.Races, fmt.Sprintf("data race on %s: %s by T%d at %s is unordered with %s by T%d at %s",
 				what, accKind(write), me, site(4), accKind(prev.write), prev.tid, prev.site))
 		}
-		_ = kind
 	}
-	if w := cell.lastW; w != nil && w.tid != me && w.clk > t.vc.get(w.tid) {
-		report(w, "w")
+	if cell.hasW {
+		if w := &cell.lastW; w.tid != me && w.clk > t.vc.get(w.tid) {
+			report(w)
+		}
+	}
+	st := ""
+	if S.sites {
+		st = site(3)
 	}
 	if write {
-		for _, r := range cell.reads {
-			if r.tid != me && r.clk > t.vc.get(r.tid) {
-				report(r, "r")
+		for i := range cell.reads {
+			if r := &cell.reads[i]; r.tid != me && r.clk > t.vc.get(r.tid) {
+				report(r)
 			}
 		}
-		cell.lastW = &accessRec{tid: me, clk: clk, site: site(3), write: true}
-		cell.reads = map[int]*accessRec{}
+		cell.lastW = accessRec{tid: me, clk: clk, site: st, write: true}
+		cell.hasW = true
+		cell.reads = cell.reads[:0]
 	} else {
-		if r := cell.reads[me]; r == nil || r.clk != clk {
-			cell.reads[me] = &accessRec{tid: me, clk: clk, site: site(3)}
+		for i := range cell.reads {
+			if cell.reads[i].tid == me {
+				cell.reads[i].clk = clk
+				cell.reads[i].site = st
+				return
+			}
 		}
+		cell.reads = append(cell.reads, accessRec{tid: me, clk: clk, site: st})
 	}
 }
 
@@ -143,20 +164,20 @@ func accKind(w bool) string {
 
 // RP logs a read of *p and returns p (used as (*vs.RP(&x.f)) by the rewriter).
 func RP[T any](p *T) *T {
-	access(uintptr(unsafe.Pointer(p)), p, false, fmt.Sprintf("%T field", p))
+	access(uintptr(unsafe.Pointer(p)), p, false, kindField)
 	return p
 }
 
 // W logs a write of *p (inserted after the assignment statement).
 func W[T any](p *T) {
-	access(uintptr(unsafe.Pointer(p)), p, true, fmt.Sprintf("%T field", p))
+	access(uintptr(unsafe.Pointer(p)), p, true, kindField)
 }
 
 // RM logs a read of map m and returns it; WM logs a write.
 func RM[M any](m M) M {
 	v := reflect.ValueOf(m)
 	if v.Kind() == reflect.Map && !v.IsNil() {
-		access(v.Pointer(), m, false, fmt.Sprintf("map %T", m))
+		access(v.Pointer(), m, false, kindMap)
 	}
 	return m
 }
@@ -164,6 +185,6 @@ func RM[M any](m M) M {
 func WM[M any](m M) {
 	v := reflect.ValueOf(m)
 	if v.Kind() == reflect.Map && !v.IsNil() {
-		access(v.Pointer(), m, true, fmt.Sprintf("map %T", m))
+		access(v.Pointer(), m, true, kindMap)
 	}
 }
